@@ -2,7 +2,7 @@
    Only theorem statements closed by `exact` (or a one-line combination), each followed by
    Print Assumptions; plus non-vacuity examples and the refutation witnesses of the findings. *)
 From Snax Require Import Base.Prelude Model.Tsl Model.C12Const Model.C12Casts Proofs.TslProofs
-  Proofs.C05DigitProofs Proofs.C05MainProofs Proofs.C05ExtraProofs Proofs.C12ConstProofs Proofs.C12CastsProofs Proofs.C12CoherenceProofs.
+  Proofs.C05DigitProofs Proofs.C05MainProofs Proofs.C05ExtraProofs Proofs.C12ConstProofs Proofs.C12CastsProofs Proofs.C12CoherenceProofs Proofs.C12NestedProofs.
 
 (* (i) re-laid-out constants: for every static layout with positive bounds that satisfies the
    sortedness precondition (checked to follow from is_dense by the correspondence run), any contents
@@ -129,3 +129,29 @@ Theorem C12_copy_in_inside_loop_refuted :
 Proof. exact copy_in_inside_loop_refuted. Qed.
 Print Assumptions C12_copy_in_inside_loop_refuted.
 
+
+(* (ii) lifted to uses NESTED in scf.for loops below the cast's block (any nesting depth, every trip count
+   of every loop, zero included): outside the finding classes F26 (an output use inside a loop) and F30
+   (the first use is a reader inside a loop) -- `safe_nested` = the items name no other alias of the
+   source, negb loop_out, negb first_in_loop -- one application of the pattern preserves every
+   operation's observations and the final contents of every buffer except the new allocation. *)
+Theorem C12_realize_coherent_nested :
+  forall (trips : nat -> nat) (d src td ts s0 : nat) (others : list nat) (post : list item) (s : state),
+    (forall v, v <> d -> alias s v <> d) -> alias s src = alias s s0 ->
+    In (alias s s0) others -> In s0 others -> ~ In d others ->
+    (forall v, alias s v = alias s s0 -> In v others) ->
+    safe_nested d others post = true ->
+    let t := exec_list trips (ICast d src td ts :: post) s in
+    let t' := exec_list trips (IAlloc d :: fst (ins_list d s0 false false post)) s in
+    trace t = trace t' /\ forall b, b <> d -> memo t b = memo t' b.
+Proof. exact realize_coherent_nested. Qed.
+Print Assumptions C12_realize_coherent_nested.
+
+Example C12_realize_nested_nonvacuous :
+  let post := [IOp 0 [(2, KOut)];
+               ILoop 7 [IOp 1 [(2, KIn); (3, KOut)]; ILoop 8 [IOp 2 [(2, KIn); (4, KOut)]]];
+               IOp 3 [(2, KInOut)]]%nat in
+  safe_nested 2%nat [0%nat] post = true /\
+  fst (ins_list 2%nat 0%nat false false post) = post ++ [ICopy 2 0]%nat.
+Proof. exact realize_nested_nonvacuous. Qed.
+Print Assumptions C12_realize_nested_nonvacuous.
